@@ -25,6 +25,7 @@ replay = common.generic_replay
 
 GRIDS_C = "ciderpress/lib/mod_cider/cider_grids.c"
 CONV_C = "ciderpress/lib/mod_cider/convolutions.c"
+INTERP_C = "ciderpress/lib/mod_cider/conv_interpolation.c"
 
 VALIDATION = []
 
@@ -132,6 +133,51 @@ def h_rad_orb(env, nalpha=2, stride=3, offset=1):
         for c in range(stride):
             if not (offset <= c < offset + nalpha):
                 env.equal("forward_writes_only_window_%d_%d" % (u, c), Ax[u, c], env.const(0))
+
+
+def h_project_spline(env, nalpha=2, orb_stride=3, spline_stride=3, offset_spline=0, offset_orb=1, nrad=2):
+    """project_conv_to_spline (A: orbital coefficients -> cubic-spline coefficients per atom/radial node/lm) and
+    project_spline_to_conv (B), real ATCBasis in process memory, concrete spline table w_rsp"""
+    import ctypes as ct
+    W = _real_world()
+    atco = W["atco"]
+    nao, natm, nbas = atco.nao, atco.natm, atco.nbas
+    nlm = 4
+    rng = np.random.default_rng(11)
+    w_rsp = np.ascontiguousarray(rng.normal(size=(nrad, nbas, 4)).round(3))
+    x = env.arr("x", (nao, orb_stride), lo="-2", hi="2")
+    y = env.arr("y", (natm, nrad, nlm, 4, spline_stride), lo="-2", hi="2")
+    args = lambda fa, fu: [fa, fu, w_rsp, None, nalpha, nrad, nlm, orb_stride, spline_stride, offset_spline, offset_orb]
+    if env.sym:
+        Ax = env.zeros((natm, nrad, nlm, 4, spline_stride))
+        it = _hybrid(INTERP_C)
+        it.call("project_conv_to_spline", [_sym_buf(it, Ax, "f_arlpq"), _sym_buf(it, x.copy(), "f_uq"), Ptr(REAL, w_rsp.ctypes.data), _ptr_of(atco.atco_c_ptr),
+                                           nalpha, nrad, nlm, orb_stride, spline_stride, offset_spline, offset_orb])
+        By = env.zeros((nao, orb_stride))
+        it2 = _hybrid(INTERP_C)
+        it2.call("project_spline_to_conv", [_sym_buf(it2, y.copy(), "f_arlpq"), _sym_buf(it2, By, "f_uq"), Ptr(REAL, w_rsp.ctypes.data), _ptr_of(atco.atco_c_ptr),
+                                            nalpha, nrad, nlm, orb_stride, spline_stride, offset_spline, offset_orb])
+        STATS["instructions"] += it.steps + it2.steps
+    else:
+        lib = W["lc"].libcider
+        P = lambda a: a.ctypes.data_as(ct.c_void_p)
+        I = ct.c_int
+        Ax = np.zeros((natm, nrad, nlm, 4, spline_stride))
+        xx = np.ascontiguousarray(x.copy())
+        lib.project_conv_to_spline(P(Ax), P(xx), P(w_rsp), atco.atco_c_ptr, I(nalpha), I(nrad), I(nlm), I(orb_stride), I(spline_stride), I(offset_spline), I(offset_orb))
+        By = np.zeros((nao, orb_stride))
+        yy = np.ascontiguousarray(y.copy())
+        lib.project_spline_to_conv(P(yy), P(By), P(w_rsp), atco.atco_c_ptr, I(nalpha), I(nrad), I(nlm), I(orb_stride), I(spline_stride), I(offset_spline), I(offset_orb))
+    ws, wo = slice(offset_spline, offset_spline + nalpha), slice(offset_orb, offset_orb + nalpha)
+    env.equal("<Ax,y>=<x,By>", _dot(env, Ax[..., ws], y[..., ws]), _dot(env, x[:, wo], By[:, wo]))
+    for u in range(nao):
+        for c in range(orb_stride):
+            if not (offset_orb <= c < offset_orb + nalpha):
+                env.equal("backward_writes_only_window_%d_%d" % (u, c), By[u, c], env.const(0))
+    for idx in np.ndindex(natm, nrad, nlm, 4):
+        for c in range(spline_stride):
+            if not (offset_spline <= c < offset_spline + nalpha):
+                env.equal("forward_writes_only_window_%s_%d" % ("_".join(map(str, idx)), c), Ax[idx + (c,)], env.const(0))
 
 
 def h_atc_integrals(env, vk=False):
@@ -242,6 +288,7 @@ def tasks(tier):
            Task("rad_orb/offset1", h_rad_orb, {}), Task("rad_orb/offset0", h_rad_orb, dict(stride=2, offset=0)),
            # offset 0 inside a wider array (stride > nalpha): the layout LCAOInterpolator uses for the l=0 block when l=1 features exist
            Task("angc_ylm/offset0_wide", h_angc_ylm, dict(stride=3, offset=0)), Task("rad_orb/offset0_wide", h_rad_orb, dict(stride=4, offset=0)),
+           Task("project_spline/offsets0_1", h_project_spline, {}), Task("project_spline/offsets1_0_wide", h_project_spline, dict(orb_stride=4, spline_stride=3, offset_spline=1, offset_orb=0)),
            Task("atc_integrals/vj+vi", h_atc_integrals, dict(vk=False)), Task("atc_integrals/vk", h_atc_integrals, dict(vk=True)),
            Task("interp_transform/gq", h_interp_transform, dict(order="gq"), mods="numint"), Task("interp_transform/qg", h_interp_transform, dict(order="qg"), mods="numint"),
            Task("translator_validation", c_translator_validation, dict(seed=0), engine="custom")]
@@ -269,7 +316,7 @@ def replay(task, rec):
 def extra_evidence(results):
     from ..llsym import ir
     return dict(ir_sources_sha256={k.replace("/repo/", ""): v for k, v in ir.EMITTED.items()}, translator_validation=[dict(function=n, max_deviation=d) for n, d in VALIDATION],
-                pairs_not_covered=["fill_l1_coeff_fwd/bwd", "add_lp1_term_fwd/bwd (+onsite variants)", "project_conv_to_spline/project_spline_to_conv",
+                pairs_not_covered=["fill_l1_coeff_fwd/bwd", "add_lp1_term_fwd/bwd (+onsite variants)",
                                    "compute_mol_convs_single_new/compute_pot_convs_single_new", "SDMXcontract_ao_to_bas*", "contract_shl_to_alpha_l1(_bwd)", "SDMX plan get_features/get_vxc"])
 
 
@@ -278,10 +325,11 @@ META = dict(
                 "z3 decides the bilinear adjoint identity; interpreter validated against the compiled .so on concrete inputs",
     functions=["ciderpress/lib/mod_cider/cider_grids.c: reduce_angc_to_ylm, reduce_ylm_to_angc (dgemm_ by reference-BLAS semantics)",
                "ciderpress/lib/mod_cider/convolutions.c: contract_rad_to_orb, contract_orb_to_rad, multiply_atc_integrals(fwd=1/0), multiply_atc_integrals_vk(fwd=1/0)",
+               "ciderpress/lib/mod_cider/conv_interpolation.c: project_conv_to_spline, project_spline_to_conv",
                "ciderpress/dft/plans.py: NLDFGaussianPlan._get_transformed_interpolation_terms (fwd/bwd, in place and copy)"],
     bounds=dict(atoms=2, lmax=1, nalpha=2, radial_shells="2-5", angular_points="2-4 per shell", strides="stride > nalpha with offset 0/1", coef_order="gq, qg", threads="serial semantics (C10 covers threading)"),
     stubs=["dgemm_: reference BLAS (column major) over exact reals", "scipy cho_factor/cho_solve: exact symbolic solve (SPD assumed, 2x2)",
            "atc_basis_set / convolution_collection: built by the freshly compiled library through ATCBasis / ConvolutionCollection; only read"],
-    assumptions=["pairs listed in coverage.pairs_not_covered (spline projection, l+1 terms, SDMX contractions) are NOT covered in this round",
+    assumptions=["pairs listed in coverage.pairs_not_covered (l+1 terms, orbital<->grid interpolation, SDMX contractions) are NOT covered in this round",
                  "float64 as exact reals: the identity is exact, stronger than 'to rounding error'"],
 )
